@@ -28,7 +28,10 @@ def main():
         else:
             for i in range(0, len(args), 3):
                 f, old, new = args[i:i+3]
+                if os.path.isabs(f) or ".." in f.split(os.sep):
+                    print(f"EDIT REFUSED: {f!r} must be relative to rl_blox/"); return 3
                 p = os.path.join(tmp, "rl_blox", f)
+                assert os.path.realpath(p).startswith(os.path.realpath(tmp) + os.sep)
                 s = open(p).read()
                 if s.count(old) != 1:
                     print(f"EDIT FAILED: {old!r} occurs {s.count(old)} times in {f}"); return 3
